@@ -131,11 +131,13 @@ func c04Body(x *mc.Exec) {
 		doc.Included = []j.Resource{u1}
 		frag = []string{"t", "1"}
 	case 1:
+		// an untyped collection whose members have different types (and
+		// therefore different selections)
 		col := &j.Resources{}
 		col.Add(t1)
+		col.Add(u1)
 		col.Add(t2)
 		doc.Data = col
-		doc.Included = []j.Resource{u1}
 	case 2:
 		if soft {
 			typ := c04T.SoftType()
